@@ -1,10 +1,40 @@
 import PyxModel.Sexp
+import PyxModel.NewInst
+import Driver.C10
 
-/-! driver commands of property C19 (stub: no command yet) -/
+/-! driver for `(newinst (gen …) op…)` command lines (C19): constructor calls with typed defaults and an id
+    generator given by its stream — `(gen lin START STEP)`: the k-th value is START + STEP·k
+    (`IntegerGenerator` = `lin 1 1`).  Ops: define / assoc as in C10, `(new kind (args …) (kw …))`,
+    `(peek)`, `(next)`.  Answer per op; for `new`: `(result dict-of-the-created-instance)`. -/
 namespace Pyx.Driver.C19
-open Pyx Pyx.Sexp
+open Pyx Pyx.Sexp Pyx.Attr Pyx.NewInst
+open Pyx.Driver.C10 (name? val? ofVal ofExc ofOptExc pairs attrPair? ofDict)
+
+def step (stream : Nat → Int) (w : World) : Sexp → World × Sexp
+  | list [sym "new", k, list (sym "args" :: args), list (sym "kw" :: kws)] =>
+    match name? k with
+    | some kind =>
+      let n0 := w.insts.length
+      let (w', e) := NewInst.newInst stream w kind (args.filterMap val?) (pairs kws)
+      match w'.insts[n0]? with
+      | some inst => (w', list [ofOptExc e, ofDict inst.dict])
+      | none => (w', list [ofOptExc e])
+    | none => (w, sym "bad-op")
+  | list [sym "peek"] => (w, int (stream w.nextId))
+  | list [sym "next"] => ({ w with nextId := w.nextId + 1 }, int (stream w.nextId))
+  | op@(list (sym "define" :: _)) => Pyx.Driver.C10.step w op
+  | op@(list (sym "assoc" :: _)) => Pyx.Driver.C10.step w op
+  | _ => (w, sym "bad-op")
+
+def run (stream : Nat → Int) (ops : List Sexp) : Sexp :=
+  let (_, outs) := ops.foldl (fun (acc : World × List Sexp) op =>
+    let (w', r) := step stream acc.1 op
+    (w', r :: acc.2)) ({ World.empty with nextId := 0 }, [])
+  list outs.reverse
 
 def handle : List Sexp → Option Sexp
+  | sym "newinst" :: list [sym "gen", sym "lin", int start, int stp] :: ops =>
+    some (run (linStream start stp) ops)
   | _ => none
 
 end Pyx.Driver.C19
